@@ -636,6 +636,12 @@ def do_plot_other(run, scen, op, si, fitted):
         exc = e
     run.event(kind, [op["swap"], op["levels"]], [type(exc).__name__ if exc else None])
     try:
+        if exc is not None and isinstance(exc, ValueError) and "Domain error in arguments" in str(exc):
+            # the model *fitted* to this sub-sample has a dependence function that leaves the admissible
+            # parameter range inside the plotted / sampled range (scipy refuses to evaluate): the
+            # workload's model, not the plotting function
+            run.inconclusive = "fitted model leaves the parameter domain (scipy: Domain error)"
+            return
         if exc is not None:
             run.violate(f"{kind}-raises", type(exc).__name__, {"exc": repr(exc)[:300], "step": si})
             return
@@ -733,14 +739,26 @@ def do_plot_other(run, scen, op, si, fitted):
                 h0 = 1.5 * 1.1 * (d0[:, 0].max() - d0[:, 0].min()) / (op["n_grid"] - 1)
                 h1 = 1.5 * 1.1 * (d0[:, 1].max() - d0[:, 1].min()) / (op["n_grid"] - 1)
                 lo_f, hi_f = f.copy(), f.copy()
+                judged = np.isfinite(f)
                 for dx, dy in ((h0, 0), (-h0, 0), (0, h1), (0, -h1)):
                     q = ok_pts + np.array([dx, dy])
                     q = np.where(q > 0, q, 1e-9)
-                    fq = np.asarray(model.pdf(q), dtype=float)
+                    with np.errstate(all="ignore"):
+                        fq = np.asarray(model.pdf(q), dtype=float)
+                    judged &= np.isfinite(fq)
                     lo_f, hi_f = np.minimum(lo_f, fq), np.maximum(hi_f, fq)
-                bad = ~((lo_f <= lvl * 1.3) & (hi_f >= lvl / 1.3))
-                if bad.mean() > 0.2:
-                    run.violate("plot_iso-contours", "density-on-level-line", {"level": lvl, "pdf_at_vertices": f[:5].tolist(), "share_off": float(bad.mean()), "swap": op["swap"], "step": si})
+                # a model fitted to a sub-sample can have a dependence function with a pole inside the
+                # plotted range (seen: sigma = a + b / (1 + c h) with c = -0.93, pole at h = 1.08): the
+                # density is not a number next to it and level lines run along the pole; such vertices
+                # cannot be judged
+                if judged.sum() < 3:
+                    run.count("plot_iso_levels_not_judged_density_not_finite")
+                    continue
+                if (~judged).any():
+                    run.count("plot_iso_vertices_not_judged_density_not_finite", int((~judged).sum()))
+                bad = ~((lo_f <= lvl * 1.3) & (hi_f >= lvl / 1.3)) & judged
+                if bad.sum() / judged.sum() > 0.2:
+                    run.violate("plot_iso-contours", "density-on-level-line", {"level": lvl, "pdf_at_vertices": f[:5].tolist(), "share_off": float(bad.sum() / judged.sum()), "swap": op["swap"], "step": si})
                     return
             run.count("plot_iso_vertices_checked", nchk)
         else:
